@@ -41,6 +41,7 @@ def run(ck):
     ck.rule("C03-O7", "a null source-location pointer stays null in the copy")
     copy_ctor(ck)
     captured_state(ck)
+    formatters_render_captured_state(ck)
     no_pointer_identity(ck)
     for inst in sorted([F.flat(f) for f in F.fn_all(OT + "::process") if f.d.get("inst")], key=lambda f: f.name):
         handoff(ck, inst)
@@ -94,6 +95,40 @@ def captured_state(ck):
         ck.ob("C03-O8", sitestr(gfn) if bad is None else sitestr(bad[0], bad[1]), bad is None, "%s() returns captured state" % short if bad is None else
               "%s() samples %s when it is called: behind the asynchronous hand-off that is the logger thread / a later moment, not the originator's" % (short, (bad[1].get("callee") or "").split("(")[0]),
               key="LogMessage::%s|ambient" % short)
+
+
+CLOCKS = tuple(a for a in AMBIENT if a != "QCoreApplication::applicationPid") + ("QElapsedTimer::elapsed", "QElapsedTimer::nsecsElapsed", "QElapsedTimer::restart", "QElapsedTimer::msecsSinceReference",
+                                                                                   "QElapsedTimer::msecsTo", "QElapsedTimer::secsTo", "QDeadlineTimer::current", "QDeadlineTimer::remainingTime", "clock", "std::clock")
+
+
+def formatters_render_captured_state(ck):
+    """a formatter runs on the logger thread, after the hand-off: whatever time or thread it prints must come from the message, never from a clock or the
+    current thread read while formatting"""
+    F = ck.facts
+    ck.rule("C03-O10", "code reachable from a Formatter's format() samples neither a clock nor the current thread: the time and thread a record shows are the ones captured when the message was created")
+    subs = F.subclasses("QtLogger::Formatter") | {"QtLogger::Formatter"}
+    roots = [f for f in F.fns.values() if f.body is not None and strip_tmpl(f.cls or "") in subs and f.name.split("::")[-1] == "format"]
+    ck.require(len(roots) >= 4, "only %d Formatter::format implementations found (5 confirmed by hand)" % len(roots))
+    reach = F.reachable_from(roots, virtual=True)
+    for f in list(F.fns.values()):
+        if f.lambda_of in reach:
+            reach.add(f.id)
+    is_clock = lambda n: n.get("k") == "call" and any(strip_tmpl(n.get("callee") or "").replace("_V2::", "") == a.replace("_V2::", "") for a in CLOCKS)
+    bad = []
+    n = 0
+    for fid in sorted(reach):
+        f = F.fns.get(fid)
+        if f is None or f.body is None or not in_lib(f.file) or f.cls == LM:
+            continue
+        n += 1
+        ck.touch(f)
+        for c in f.all_nodes():
+            if is_clock(c):
+                bad.append((f, c))
+    for f, c in bad[:4]:
+        ck.ob("C03-O10", sitestr(f, c), False, "%s reads %s while formatting: behind the asynchronous hand-off that is the logger thread at a later moment - the record shows when (where) it was formatted, "
+              "not when (where) it was logged, so a slow sink or a burst changes what the sinks observe" % (strip_tmpl(f.name).replace("QtLogger::", ""), strip_tmpl(c.get("callee") or "")), key="format|ambient")
+    ck.ob("C03-O10", "(formatters)", not bad, "%d library functions reachable from the %d format() implementations, none samples a clock or the current thread" % (n, len(roots)), key="format|ambient-summary")
 
 
 def no_pointer_identity(ck):
@@ -327,6 +362,8 @@ def handoff(ck, proc):
             ck.ob("C03-O5", sitestr(ce, dec[0]), ok, "%s: pending -= 1 exactly once after each handler run" % tag if ok else "%s: the decrement does not follow every handler run exactly once" % tag, key="Worker::customEvent|decrement")
     from rules.oth import worker_runs_unlocked, worker_cleared_after_stop
     worker_runs_unlocked(ck, cls, tag, "C03-O3")
+    from rules.oth import creation_is_atomic
+    creation_is_atomic(ck, cls, tag, "C03-O6")
     worker_cleared_after_stop(ck, cls, tag, "C03-O4")
     # single event type, no sendEvent
     members = F.units_of(lambda f: bool(f.cls) and f.cls.startswith(cls))
